@@ -3,6 +3,21 @@
 import json
 TECH = "SMT-based bounded symbolic execution of go/ssa (z3 4.8.12 / 5.1.0), counterexamples replayed natively"
 claimed = {
+ "C10": dict(level="model_checking",
+   text="Exact-real (R-model) one-step induction from an arbitrary state inside the stated store invariant, plus two-step direct runs from the zero state, for RunoffCoefficient, Simhyd and Surm: outputs >= 0, runoff = quick + base, stores within [0, capacity] (so the invariant is inductive and covers series of any length), per-step budget runoff + Phi(state') <= rain + Phi(state) whose telescoped sum is the cumulative claim. exp() by contract.",
+   ref="§4 C10", note="float64 modelled as exact reals (rounding/overflow/NaN outside the claim); parameters: fractions in [0,1], capacities > 0; GR4J and Sacramento are NOT yet covered by this check (see DESIGN §5)"),
+ "C11": dict(level="model_checking",
+   text="Muskingum: two-step recurrence with independently transcribed weights on total (upstream+lateral) inflow, continuity of S=K(XI+(1-X)O), steady state fixed point, for all K,X,dt in the stable region. Lag: every lag and series length in [0,4]^2 ([0,7]^2 thorough) with symbolic values. StorageRouting: one timestep (the real calcOutflow/runRouting) from an arbitrary previous storage for bias 0 and m in {1, 1/2, symbolic in (0,1]}: every exit path: outflow,storage >= 0, water balance within 2*massBalanceLimit, S = kQ+dead for uncapped outflow; fn.FindRoot replaced by its C18 contract.",
+   ref="§4 C11", note="R-model; FindRoot convergence within the iteration budget is assumed at its call site; non-zero inflow bias not covered; known finding C11-flux-capped-exit"),
+ "C12": dict(level="model_checking",
+   text="One timestep from an arbitrary non-negative stored mass through every branch of the eight listed models (flush, flood-plain deposition on/off, deposition/remobilisation/neither, decay on/off, bank-full 0 / >0): mass in + stored = mass out + deposited/trapped/decayed/floodplain + stored', loads and stores >= 0, remobilisation <= channel store; loss only below the minimum volume.",
+   ref="§4 C12", note="R-model; pow() terms by sign/monotonicity contract; reservoir trapping assumes working volume > 0; fine-sediment channel store assumed <= its capacity (the model maintains this)"),
+ "C16": dict(level="model_checking",
+   text="All partition, pass-through, scaling, unit-conversion and generation kernels (19 harnesses, 2 timesteps, all values symbolic reals): outputs sum to input, linear maps with the documented unit factors (1e-3 mm->m, 1e-3 mg/L->kg/m3, 0.01 %->proportion), totals = sum of parts, delivered = generated*ratio, zero driver => zero load, non-negative drivers => non-negative loads; rating-curve partition with 2-4 point tables.",
+   ref="§4 C16", note="R-model (exact reals); rating partition inside the table only (outside it the model panics by design); cos/pow by contract"),
+ "C18": dict(level="model_checking",
+   text="FindRoot: 1 and 2 (3 thorough) iterations from an arbitrary bracket with an uninterpreted (Ackermannised) monotone or merely sign-changing f, optional Newton trial: every evaluation point inside the bracket, result inside, returned value = f(result), value no worse than the better end or below tolerance. Piecewise: 2-5 strictly increasing symbolic knots: exact at knots, linear interpolant between neighbours, error exactly outside the table, NaN query (IEEE model) is an error.",
+   ref="§4 C18", note="R-model for FindRoot/Piecewise, FP-model for the NaN case; convergence within the iteration budget is not decided; a bracket whose two ends are both exact roots is excluded; known finding C18-findroot-early-return-under-tolerance"),
  "C01": dict(level="model_checking",
    text="(1) Inductive step of slicing for ranks 1-3 in wrapping 64-bit arithmetic with NO bound on extents, origins, steps or positions: the child of an arbitrary member of the view family is again a member, shares storage, and its element i is the parent's element loc+i*step; hence chains of any depth. (2) Direct runs through the public API on fresh arrays with extents <= 3 (4 thorough), steps <= 3: depth-2/3 chains, Get/Set visibility both ways, exact footprints of Set, Apply, ApplySlice, CopyFrom on every storage cell. All 8 Go element types (instantiated from the genny type list of the current tree).",
    ref="§4 C01", note="(2) uses mathematical ints with all quantities bounded by the extents (no overflow possible); rank <= 3; C-backed arrays are covered under C03; shape extents are enumerated by forking, positions/steps/values are symbolic"),
